@@ -18,6 +18,58 @@ inductive All2 {α β : Type} (R : α → β → Prop) : List α → List β →
   | nil : All2 R [] []
   | cons {a b as bs} : R a b → All2 R as bs → All2 R (a :: as) (b :: bs)
 
+/-- `n`-fold sequential composition of a denotation -/
+def powDen {α : Type} (d : Den α) : Nat → Den α
+  | 0 => fun σ _ => [(0, σ)]
+  | n+1 => fun σ w => (d σ w).flatMap fun (k, σ') => (powDen d n σ' (w.drop k)).map fun (k', σ'') => (k + k', σ'')
+
+theorem powDen_eq_seqDen {α : Type} (d : Den α) (n : Nat) : powDen d n = seqDen (List.replicate n d) := by
+  induction n with
+  | zero => funext σ w; simp [powDen, seqDen]
+  | succ n ih => funext σ w; simp [powDen, seqDen, List.replicate_succ, ih]
+
+/-- `times {lo,hi}` = between `lo` and `hi` consecutive repetitions, each consuming what one
+occurrence consumes -/
+theorem mem_iterDen {α : Type} (d : Den α) (lo hi : Nat) (σ : Sigma) (w : List α) (x : Nat × Sigma) :
+    x ∈ iterDen d lo hi σ w ↔ ∃ n, lo ≤ n ∧ n ≤ hi ∧ x ∈ powDen d n σ w := by
+  induction hi generalizing lo σ w x with
+  | zero =>
+    simp only [iterDen]
+    split
+    · rename_i h; subst h
+      constructor
+      · intro hx; exact ⟨0, by omega, by omega, by simpa [powDen] using hx⟩
+      · rintro ⟨n, _, hn, hx⟩
+        have : n = 0 := by omega
+        subst this; simpa [powDen] using hx
+    · rename_i h
+      simp only [List.not_mem_nil, false_iff]
+      rintro ⟨n, h1, h2, _⟩; omega
+  | succ m ih =>
+    simp only [iterDen, List.mem_append, List.mem_flatMap, List.mem_map]
+    constructor
+    · rintro (⟨⟨k, σ1⟩, hk, y, hy, rfl⟩ | h0)
+      · obtain ⟨n, h1, h2, hn⟩ := (ih _ _ _ _).mp hy
+        refine ⟨n + 1, by omega, by omega, ?_⟩
+        simp only [powDen, List.mem_flatMap, List.mem_map]
+        exact ⟨(k, σ1), hk, y, hn, rfl⟩
+      · split at h0
+        · rename_i h; subst h
+          exact ⟨0, by omega, by omega, by simpa [powDen] using h0⟩
+        · cases h0
+    · rintro ⟨n, h1, h2, hn⟩
+      cases n with
+      | zero =>
+        right
+        have : lo = 0 := by omega
+        subst this
+        simpa [powDen] using hn
+      | succ n =>
+        left
+        simp only [powDen, List.mem_flatMap, List.mem_map] at hn
+        obtain ⟨⟨k, σ1⟩, hk, y, hy, rfl⟩ := hn
+        exact ⟨(k, σ1), hk, y, (ih _ _ _ _).mpr ⟨n, by omega, by omega, hy⟩, rfl⟩
+
 structure Sem {α : Type} (txt : List α → Str) (Ok : List α → Prop) (r : Rx) (d : Den α) : Prop where
   run_iff : ∀ (σ : Sigma) (e : Env) (w : List α) (x : Env × Str), Ok w →
     (x ∈ r.run e (txt w) ↔ ∃ k, (k, σ) ∈ d σ w ∧ x = (e, txt (w.drop k)))
@@ -112,35 +164,158 @@ theorem sem_or (rs : List Rx) (ds : List (Den α)) (h : All2 (Sem txt Ok) rs ds)
     Sem txt Ok (.grp (orJoin rs)) (fun σ w => ds.flatMap fun d => d σ w) :=
   sem_grp (sem_alts _ _ (forall₂_map_grp rs ds h))
 
-theorem sem_iter (hdc : DropClosed Ok) {r : Rx} {d : Den α} (h : Sem txt Ok r d) (lo hi : Nat) :
+/-- consuming items moves the position: the remaining text has the same length only if nothing was consumed -/
+def PosStrict {α : Type} (txt : List α → Str) : Prop :=
+  ∀ w k, (txt (w.drop k)).length = (txt w).length → w.drop k = w
+
+theorem posStrict_of_cons {α : Type} (txt : List α → Str)
+    (hcons : ∀ a w, (txt w).length < (txt (a :: w)).length) : PosStrict txt := by
+  have hle : ∀ w k, (txt (w.drop k)).length ≤ (txt w).length := by
+    intro w
+    induction w with
+    | nil => intro k; simp
+    | cons a w ih =>
+      intro k
+      cases k with
+      | zero => simp
+      | succ k => have := ih k; have := hcons a w; simp only [List.drop_succ_cons]; omega
+  intro w k h
+  cases w with
+  | nil => simp
+  | cons a w =>
+    cases k with
+    | zero => simp
+    | succ k =>
+      have := hle w k; have := hcons a w
+      simp only [List.drop_succ_cons] at h
+      omega
+
+/-- the engine's guarded iteration yields only what the specification's repetition lists -/
+theorem sem_iterG_sound (hdc : DropClosed Ok) {r : Rx} {d : Den α} (h : Sem txt Ok r d) (σ : Sigma) :
+    ∀ (hi lo : Nat) (last : Option Nat) (e : Env) (w : List α) (x : Env × Str), Ok w →
+      x ∈ iterG r.run lo hi last e (txt w) → ∃ k, (k, σ) ∈ iterDen d lo hi σ w ∧ x = (e, txt (w.drop k)) := by
+  intro hi
+  induction hi with
+  | zero =>
+    intro lo last e w x hw hx
+    rw [iterG_hi_zero] at hx
+    simp only [iterDen]
+    split at hx
+    · rename_i h0; simp only [List.mem_singleton] at hx; subst hx
+      exact ⟨0, by simp [h0], by simp⟩
+    · cases hx
+  | succ n ih =>
+    intro lo last e w x hw hx
+    have step : ∀ lo' last' (y : Env × Str), y ∈ r.run e (txt w) → x ∈ iterG r.run lo' n last' y.1 y.2 →
+        ∃ k, (∃ p ∈ d σ w, ∃ q ∈ iterDen d lo' n p.2 (w.drop p.1), (k, σ) = (p.1 + q.1, q.2)) ∧ x = (e, txt (w.drop k)) := by
+      intro lo' last' y hy hx2
+      obtain ⟨k, hk, rfl⟩ := (h.run_iff σ e w y hw).mp hy
+      obtain ⟨k', hk', rfl⟩ := ih lo' last' e (w.drop k) x (hdc w k hw) hx2
+      exact ⟨k + k', ⟨(k, σ), hk, (k', σ), hk', rfl⟩, by simp [List.drop_drop, Nat.add_comm]⟩
+    cases lo with
+    | succ lo =>
+      simp only [iterG, List.mem_flatMap] at hx
+      obtain ⟨y, hy, hx2⟩ := hx
+      obtain ⟨k, ⟨p, hp, q, hq, heq⟩, rfl⟩ := step lo last y hy hx2
+      refine ⟨k, ?_, rfl⟩
+      simp only [iterDen, List.mem_append, List.mem_flatMap, List.mem_map, Nat.add_sub_cancel]
+      exact Or.inl ⟨p, hp, q, hq, heq.symm⟩
+    | zero =>
+      simp only [iterG, List.mem_append, List.mem_singleton] at hx
+      rcases hx with h1 | h0
+      · split at h1
+        · cases h1
+        · obtain ⟨y, hy, hx2⟩ := List.mem_flatMap.mp h1
+          obtain ⟨k, ⟨p, hp, q, hq, heq⟩, rfl⟩ := step 0 _ y hy hx2
+          refine ⟨k, ?_, rfl⟩
+          simp only [iterDen, List.mem_append, List.mem_flatMap, List.mem_map]
+          exact Or.inl ⟨p, hp, q, hq, heq.symm⟩
+      · subst h0
+        exact ⟨0, by simp [iterDen], by simp⟩
+
+/-- optional rounds: every `n`-fold repetition with `n ≤ hi` is found by the guarded iteration
+(rounds consuming nothing are skipped), unless the guard blocks and something would be consumed -/
+theorem sem_iterG_opt (hdc : DropClosed Ok) (hpos : PosStrict txt) {r : Rx} {d : Den α} (h : Sem txt Ok r d) (σ : Sigma) :
+    ∀ (n hi : Nat) (last : Option Nat) (e : Env) (w : List α) (k : Nat), Ok w → n ≤ hi →
+      (k, σ) ∈ powDen d n σ w → (last ≠ some (txt w).length ∨ w.drop k = w) →
+      (e, txt (w.drop k)) ∈ iterG r.run 0 hi last e (txt w) := by
+  intro n
+  induction n with
+  | zero =>
+    intro hi last e w k hw _ hk _
+    simp only [powDen, List.mem_singleton, Prod.mk.injEq, and_true] at hk
+    subst hk
+    simpa using self_mem_iterG r.run hi last e (txt w)
+  | succ n ih =>
+    intro hi last e w k hw hn hk hcond
+    simp only [powDen, List.mem_flatMap, List.mem_map] at hk
+    obtain ⟨⟨k1, σ1⟩, hk1, ⟨k', σ2⟩, hk', heq⟩ := hk
+    have h1 : σ1 = σ := h.pure σ w _ hk1
+    subst h1
+    simp only [Prod.mk.injEq] at heq
+    obtain ⟨rfl, rfl⟩ := heq
+    have hdd : w.drop (k1 + k') = (w.drop k1).drop k' := by simp [List.drop_drop, Nat.add_comm]
+    by_cases hz : (txt (w.drop k1)).length = (txt w).length
+    · -- a round that consumed nothing: skip it
+      have hw1 : w.drop k1 = w := hpos w k1 hz
+      rw [hw1] at hk'
+      rw [hdd, hw1]
+      refine ih hi last e w k' hw (by omega) hk' ?_
+      rcases hcond with hc | hc
+      · exact Or.inl hc
+      · right; rw [hdd, hw1] at hc; exact hc
+    · by_cases hb : last = some (txt w).length
+      · rcases hcond with hc | hc
+        · exact absurd hb hc
+        · rw [hc]; exact self_mem_iterG r.run hi last e (txt w)
+      · cases hi with
+        | zero => omega
+        | succ hi =>
+          simp only [iterG, hb, if_false, List.mem_append, List.mem_flatMap]
+          left
+          refine ⟨(e, txt (w.drop k1)), (h.run_iff σ2 e w _ hw).mpr ⟨k1, hk1, rfl⟩, ?_⟩
+          rw [hdd]
+          refine ih hi (some (txt w).length) e (w.drop k1) k' (hdc w k1 hw) (by omega) hk' (Or.inl ?_)
+          intro hc
+          simp only [Option.some.injEq] at hc
+          exact hz hc.symm
+
+/-- ... and every repetition the specification lists is found by the guarded iteration -/
+theorem sem_iterG_complete (hdc : DropClosed Ok) (hpos : PosStrict txt) {r : Rx} {d : Den α} (h : Sem txt Ok r d) (σ : Sigma) :
+    ∀ (lo hi : Nat) (e : Env) (w : List α) (k : Nat), Ok w → (k, σ) ∈ iterDen d lo hi σ w →
+      (e, txt (w.drop k)) ∈ iterG r.run lo hi none e (txt w) := by
+  intro lo
+  induction lo with
+  | zero =>
+    intro hi e w k hw hk
+    obtain ⟨n, _, hn, hp⟩ := (mem_iterDen d 0 hi σ w _).mp hk
+    exact sem_iterG_opt hdc hpos h σ n hi none e w k hw hn hp (Or.inl (by simp))
+  | succ lo ih =>
+    intro hi e w k hw hk
+    cases hi with
+    | zero => simp [iterDen] at hk
+    | succ hi =>
+      simp only [iterDen, List.mem_append, List.mem_flatMap, List.mem_map, Nat.add_sub_cancel] at hk
+      rcases hk with ⟨⟨k1, σ1⟩, hk1, ⟨k', σ2⟩, hk', heq⟩ | h0
+      · have h1 : σ1 = σ := h.pure σ w _ hk1
+        subst h1
+        simp only [Prod.mk.injEq] at heq
+        obtain ⟨rfl, rfl⟩ := heq
+        simp only [iterG, List.mem_flatMap]
+        refine ⟨(e, txt (w.drop k1)), (h.run_iff σ2 e w _ hw).mpr ⟨k1, hk1, rfl⟩, ?_⟩
+        have := ih hi e (w.drop k1) k' (hdc w k1 hw) hk'
+        simpa [List.drop_drop, Nat.add_comm] using this
+      · simp at h0
+
+theorem sem_iter (hdc : DropClosed Ok) (hpos : PosStrict txt) {r : Rx} {d : Den α} (h : Sem txt Ok r d) (lo hi : Nat) :
     Sem txt Ok (.rep r lo hi) (iterDen d lo hi) := by
   constructor
   · intro σ e w x hw
     rw [mem_rep]
-    induction hi generalizing lo e w x with
-    | zero => simp only [iter, iterDen]; split <;> simp
-    | succ n ih =>
-      simp only [iter, iterDen, List.mem_append, List.mem_flatMap, List.mem_map]
-      constructor
-      · rintro (⟨y, hy, hx⟩ | hx)
-        · obtain ⟨k, hk, rfl⟩ := (h.run_iff σ e w y hw).mp hy
-          obtain ⟨k', hk', rfl⟩ := (ih (lo - 1) e (w.drop k) x (hdc w k hw)).mp hx
-          exact ⟨k + k', Or.inl ⟨(k, σ), hk, (k', σ), hk', rfl⟩, by simp [List.drop_drop, Nat.add_comm]⟩
-        · split at hx
-          · simp at hx; subst hx; exact ⟨0, Or.inr (by simp [*]), by simp⟩
-          · simp at hx
-      · rintro ⟨k0, (⟨⟨k, σ1⟩, hk, ⟨k', σ2⟩, hk', heq⟩ | h0), rfl⟩
-        · have h1 : σ1 = σ := h.pure σ w _ hk
-          subst h1
-          simp only [Prod.mk.injEq] at heq
-          obtain ⟨rfl, rfl⟩ := heq
-          left
-          refine ⟨(e, txt (w.drop k)), (h.run_iff σ2 e w _ hw).mpr ⟨k, hk, rfl⟩, ?_⟩
-          exact (ih (lo - 1) e (w.drop k) _ (hdc w k hw)).mpr ⟨k', hk', by simp [List.drop_drop, Nat.add_comm]⟩
-        · right
-          split at h0
-          · simp at h0; subst h0; simp [*]
-          · simp at h0
+    constructor
+    · exact sem_iterG_sound hdc h σ hi lo none e w x hw
+    · rintro ⟨k, hk, rfl⟩
+      exact sem_iterG_complete hdc hpos h σ lo hi e w k hw hk
   · intro σ w p hp
     induction hi generalizing lo w p σ with
     | zero => simp only [iterDen] at hp; split at hp <;> simp at hp; simp [hp]
@@ -153,12 +328,12 @@ theorem sem_iter (hdc : DropClosed Ok) {r : Rx} {d : Den α} (h : Sem txt Ok r d
         simpa using this
       · split at h0 <;> simp at h0; simp [h0]
 
-theorem sem_withTimes (hdc : DropClosed Ok) {r : Rx} {d : Den α} (h : Sem txt Ok r d) (t : Times) :
+theorem sem_withTimes (hdc : DropClosed Ok) (hpos : PosStrict txt) {r : Rx} {d : Den α} (h : Sem txt Ok r d) (t : Times) :
     Sem txt Ok (withTimes r t) (timesDen d t) := by
   unfold withTimes timesDen
   split
   · exact h
-  · exact sem_iter hdc h t.lo t.hi
+  · exact sem_iter hdc hpos h t.lo t.hi
 
 /-- negative look-ahead followed by a skip of exactly one item -/
 theorem sem_not {r skip : Rx} {d : Den α} (h : Sem txt Ok r d)
